@@ -108,7 +108,15 @@ def r2_release_restores_and_notifies(chk: Check):
     ok = len(loops) == 1 and any(isinstance(c, ast.Call) and tail(c) == "call_soon_threadsafe" for c in walk_local(loops[0]))
     chk.require(ok, chk.fkey(an, "schedules a check of each dependent"), "aio_notify must schedule a check of every dependent on its loop", chk.loc(an.module, an.node))
     ck = tree.func("tokens", "Token.aio_notify.check")
-    chk.require(any(src(c) == "dependency.check()" for c in fn_calls(ck.node)), chk.fkey(ck, "calls check"), "the scheduled callback must call dependency.check()", chk.loc(ck.module, ck.node))
+    gck = CFG(ck.node)
+    cks = gck.call_nodes(lambda c: src(c) == "dependency.check()")
+    chk.require(len(cks) == 1, chk.fkey(ck, "calls check"), "the scheduled callback must call dependency.check()", chk.loc(ck.module, ck.node))
+    for n, c in cks:
+        conds = [(src(t.ast), pol) for t, pol in gck.guards(n) if t.kind == "test"]
+        extra = [x for x in conds if x != ("0 < self.available", True)]
+        chk.require(not extra, chk.fkey(ck, "re-check unconditional"),
+                    f"the notification callback re-checks a dependency only under {extra}: a job whose start is being aborted is still READY while its counter was put back to 'unsatisfied'; "
+                    "a release dropped for it is never seen again and the job sleeps forever", chk.loc(ck.module, c))
 
 
 def r3_foreign_holdings_watched(chk: Check):
@@ -150,6 +158,16 @@ def r3_foreign_holdings_watched(chk: Check):
     chk.require(bool(dele) and g.must_pass(g.entry, g.exit, dele), chk.fkey(w, "watch ends with delete"), "the watcher thread must delete the token file on every path once the job process is gone", chk.loc(w.module, w.node))
     ww = tree.func("tokens", "TokenFile.watch")
     chk.require(any("Thread(target=run).start()" in src(c) for c in fn_calls(ww.node)), chk.fkey(ww, "starts thread"), "watch() must start the watcher thread", chk.loc(ww.module, ww.node))
+    # no pid file under the job lock means the job is gone: the holding is reclaimed at once (no polling loop)
+    pid = [n for n in g.live if n.kind == "test" and "pidpath.is_file()" in src(n.ast)]
+    okp = bool(pid) and bool(dele)
+    for p in pid:
+        fb = [b for b, l in p.succ if l is False]
+        for b in fb:
+            region = g.reachable(b, avoid=dele)
+            okp = okp and not any(n.id in region and any(l == "back" for _, l in n.succ) for n in g.live)
+    chk.require(okp, chk.fkey(w, "no pid file -> reclaim"), "when the job lock is free and there is no pid file, the watcher must give the holding back without waiting "
+                "(a scheduler killed between taking a token and spawning the job leaves exactly that state)", chk.loc(w.module, w.node))
     # wait for the process happens outside the job lock
     waits = [c for c in fn_calls(w.node) if src(c) == "process.wait()"]
     ok = bool(waits) and not any(isinstance(a, ast.With) for c in waits for a in _anc(c) if a is not w.node)
@@ -328,10 +346,17 @@ def r5_wakeup_path(chk: Check):
     chk.require(ok, chk.fkey(st, "OK iff fits"), "a token dependency must be OK exactly when the requested count fits in what is available", chk.loc(st.module, st.node))
 
 
+def r6_no_lost_wakeup(chk: Check):
+    from . import c06
+
+    c06.r5_no_lost_wakeup(chk)
+
+
 RULES = [
     ("R1", "pairing: every acquired dependency lock is owned by the enclosing `with Locks()` (released on all exits); Locks releases every member; release chains down to token.release", r1_pairing),
     ("R2", "release restores the amount, deletes the holding and notifies the dependents on every path, unconditionally, outside the locks", r2_release_restores_and_notifies),
     ("R3", "every foreign holding that is read is watched and cached on all non-exceptional paths; the watcher deletes the holding on every path", r3_foreign_holdings_watched),
     ("R4", "no explicitly raised exception (incl. re-raise, incl. package callees) can escape a watchdog event handler", r4_observer_survives),
+    ("R6", "a waiting job whose request fits is woken: after an aborted start readiness is re-derived from the counter (= C06.R5)", r6_no_lost_wakeup),
     ("R5", "a wake-up path exists: on_deleted / release -> aio_notify -> Dependency.check -> dependencychanged -> ready event; token status OK iff the request fits", r5_wakeup_path),
 ]
